@@ -41,7 +41,14 @@ def _valid_write(draw, i):
 
 @st.composite
 def _hostile_pdu(draw):
-    which = draw(st.sampled_from(['trunc', 'extend', 'bytecount', 'unknown-fc', 'unknown-sub', 'empty', 'raw']))
+    which = draw(st.sampled_from(['trunc', 'extend', 'bytecount', 'unknown-fc', 'unknown-sub', 'empty', 'raw', 'valid-any', 'listen-only']))
+    if which == 'listen-only':
+        # a perfectly valid request whose purpose is to silence the device: afterwards a fresh connection must still be served
+        # (Twisted front-ends implement the spec's listen-only mode and are not probed, see ASSUMPTIONS)
+        return specpdu.encode('req:8', {'sub': 4, 'data': [0]})
+    if which == 'valid-any':
+        kind = draw(st.sampled_from([k for k in kinds.ALL_KINDS if k.startswith('req')]))
+        return specpdu.encode(kind, draw(gens.fields(kind, spec_mode=True)))
     if which == 'raw':
         return draw(st.binary(min_size=1, max_size=12))
     if which == 'unknown-fc':
